@@ -704,6 +704,10 @@ func genVarCase(r *RNG, id string, o varOpts) *Case {
 	var annText string
 	if format == "gb" {
 		txt, proto := renderGenbank(genes, genome)
+		if r.Chance(1, 10) {
+			txt = padGenbank(r, txt)
+			c.Tag("genbank-origin-across-a-64KiB-boundary")
+		}
 		annText = txt
 		c.Set("annfmt", "gb").Set("feats", proto).Set("rows", "")
 	} else {
@@ -987,4 +991,32 @@ func execVar(r *RNG, c *Case) {
 func init() {
 	execs["VAR"] = execVar
 	execs["REL"] = execRel
+}
+
+// padGenbank: COMMENT lines in front of FEATURES, as many bytes as it takes for the ORIGIN section to lie across a multiple
+// of 64 KiB of the file (the sizes in which a scanner refills its buffer): the file is larger than any buffer a reader
+// starts with, although the genome is short
+func padGenbank(r *RNG, txt string) string {
+	fi := strings.Index(txt, "FEATURES")
+	oi := strings.Index(txt, "\nORIGIN")
+	if fi < 0 || oi < 0 {
+		return txt
+	}
+	oi++ // offset of the ORIGIN line
+	originLen := len(txt) - oi
+	target := 65536*r.Range(1, 2) - r.Range(1, originLen-1) // where the ORIGIN line is to begin
+	pad := target - oi
+	var b strings.Builder
+	for pad > 0 {
+		n := 80
+		if pad < 80+14 {
+			n = pad
+		}
+		if n < 14 {
+			break
+		}
+		b.WriteString("COMMENT     " + strings.Repeat("x", n-13) + "\n")
+		pad -= n
+	}
+	return txt[:fi] + b.String() + txt[fi:]
 }
